@@ -185,9 +185,15 @@ def build_lens(rnd, which):
     if pol < 0.2:
         o.set_polarization(PolarizationState(is_polarized=True, Ex=1.0, Ey=rnd.random(), phase_x=0.0, phase_y=rnd.uniform(0, 3)))
         meta["polarization"] = "polarized"
+        if rnd.random() < 0.6:
+            o.surface_group.set_fresnel_coatings()
+            meta["fresnel"] = True
     elif pol < 0.3:
         o.set_polarization(PolarizationState(is_polarized=False))
         meta["polarization"] = "unpolarized"
+        if rnd.random() < 0.6:
+            o.surface_group.set_fresnel_coatings()
+            meta["fresnel"] = True
     return o, meta
 
 
@@ -255,15 +261,19 @@ def _session(args):
     sub = []
     try:
         w = o.wavelengths.get_wavelengths()[0]
-        Hy = np.array([0.0, 0.5, 1.0, -0.7])
-        Px = np.array([0.1, -0.4, 0.6, 0.2])
-        Py = np.array([0.7, 0.3, -0.5, 0.0])
-        o.trace_generic(np.zeros(4), Hy.copy(), Px.copy(), Py.copy(), w)
+        # (the batch contains the axial ray of the on-axis field - undeviated at every surface of a
+        # centred lens - next to oblique rays of the same field; intensities are compared too)
+        Hy = np.array([0.0, 0.5, 1.0, -0.7, 0.0, 0.0])
+        Px = np.array([0.1, -0.4, 0.6, 0.2, 0.0, 0.3])
+        Py = np.array([0.7, 0.3, -0.5, 0.0, 0.0, 0.8])
+        rb = o.trace_generic(np.zeros(6), Hy.copy(), Px.copy(), Py.copy(), w)
         sg = o.surface_group
-        batch = [np.array(a[-1]) for a in (sg.x, sg.y, sg.z, sg.L, sg.M, sg.N, sg.opd)]
-        for r in range(4):
-            o.trace_generic(0.0, float(Hy[r]), float(Px[r]), float(Py[r]), w)
-            alone = [float(a[-1][0]) for a in (sg.x, sg.y, sg.z, sg.L, sg.M, sg.N, sg.opd)]
+        # (the intensity is that of the returned rays: in a polarized trace the per-surface records do
+        # not carry the Fresnel losses)
+        batch = [np.array(a[-1]) for a in (sg.x, sg.y, sg.z, sg.L, sg.M, sg.N, sg.opd)] + [np.array(rb.i, dtype=float)]
+        for r in range(6):
+            ra = o.trace_generic(0.0, float(Hy[r]), float(Px[r]), float(Py[r]), w)
+            alone = [float(a[-1][0]) for a in (sg.x, sg.y, sg.z, sg.L, sg.M, sg.N, sg.opd)] + [float(np.ravel(ra.i)[0])]
             sub.append({"op": "subbatch", "exc": "", "alone": [dy(v) for v in alone],
                         "inbatch": [dy(float(b[r])) for b in batch], "bits": 16 if meta["iterative"] else 40})
     except Exception as ex:
